@@ -39,11 +39,16 @@ Batches == << <<>>, <<2>> >>
 DepthOf(c) == IF c \in G_LeafClasses THEN 0 ELSE 1
 N == 4
 
+\* operator operands of torch.matmul(Op, other Op)
+Partners == <<"Diag", "BlockDiag", "Dense", "Tri", "ConstDiag", "Kron">>
+
 \* the calls: <<kind, function, variant>>; the operand tensors are derived from the variant number in Eval
 Calls(cls, b) ==
   { <<"first", f, v>> : f \in {"add", "sub"}, v \in {1, 2, 3} }                 \* operand: 1 tensor same shape, 2 tensor broadcasting, 3 dense operator
   \cup { <<"first", f, v>> : f \in {"mul", "div"}, v \in {1, 2} }               \* 1 python scalar, 2 zero-dim tensor
   \cup { <<"first", "matmul", v>> : v \in {1, 2, 3} }                           \* 1 matrix, 2 vector, 3 batched matrix
+  \* torch.matmul(Op, other Op) and the reverse order, the other operator taken from classes with their own matmul branches
+  \cup { <<"first", "matmul_op", v>> : v \in 1..Len(Partners) } \cup { <<"first", "op_matmul", v>> : v \in 1..Len(Partners) }
   \cup { <<"second", f, v>> : f \in {"torch.add", "torch.sub", "torch.mul", "torch.matmul", "Tensor.add", "Tensor.sub", "Tensor.mul", "Tensor.matmul"},
                                v \in {1, 2} }                                  \* 1 same-shape tensor, 2 broadcasting / vector
   \cup { <<"first", f, 0>> : f \in {"diagonal", "clone", "numel", "transpose", "unsqueeze", "sum_m1", "sum_m2"} }
@@ -77,6 +82,7 @@ Construct ==
                     total |-> Cardinality(todo')]))
   /\ UNCHANGED desc
 
+PartnerTerm(v) == G_Term(Partners[v], N, N, desc.b, desc.seed + 61 + v, IF Partners[v] \in G_LeafClasses THEN 0 ELSE 1, 0)
 \* operand tensors
 SameT == G_Int(dense.shape, desc.seed + 41)
 BcT == G_Int(<<N, N>>, desc.seed + 43)
@@ -94,6 +100,8 @@ Eval(c) ==
     [] k = "first" /\ f = "mul" -> [arg |-> T_Scalar(-2), expect |-> T_Scale(A, -2)]
     [] k = "first" /\ f = "div" -> [arg |-> T_Scalar(4), expect |-> [shape |-> A.shape, data |-> A.data, den |-> 4]]
     [] k = "first" /\ f = "matmul" -> LET X == IF v = 1 THEN MatT ELSE IF v = 2 THEN VecT ELSE BMatT IN [arg |-> X, expect |-> T_MatMulAny(A, X)]
+    [] k = "first" /\ f = "matmul_op" -> [arg |-> None, argterm |-> PartnerTerm(v), expect |-> T_MatMulAny(A, Op_Denote(PartnerTerm(v)))]
+    [] k = "first" /\ f = "op_matmul" -> [arg |-> None, argterm |-> PartnerTerm(v), expect |-> T_MatMulAny(Op_Denote(PartnerTerm(v)), A)]
     [] k = "second" /\ f \in {"torch.add", "Tensor.add"} -> LET X == IF v = 2 THEN BcT ELSE SameT IN [arg |-> X, expect |-> T_Add(X, A)]
     [] k = "second" /\ f \in {"torch.sub", "Tensor.sub"} -> LET X == IF v = 2 THEN BcT ELSE SameT IN [arg |-> X, expect |-> T_Sub(X, A)]
     [] k = "second" /\ f \in {"torch.mul", "Tensor.mul"} -> [arg |-> T_Scalar(3), expect |-> T_Scale(A, 3)]
@@ -118,7 +126,8 @@ Eval(c) ==
 Call ==
   /\ n_logged >= 0 /\ todo # {}
   /\ LET c == CHOOSE y \in todo : TRUE e == Eval(c)
-     IN /\ PrintT(ToJson([id |-> desc.id, k |-> n_logged + 1, kind |-> c[1], func |-> c[2], variant |-> c[3], arg |-> e.arg, expect |-> e.expect]))
+     IN /\ PrintT(ToJson([id |-> desc.id, k |-> n_logged + 1, kind |-> c[1], func |-> c[2], variant |-> c[3], arg |-> e.arg, expect |-> e.expect,
+                             argterm |-> IF "argterm" \in DOMAIN e THEN e.argterm ELSE <<>>]))
         /\ todo' = todo \ {c}
   /\ n_logged' = n_logged + 1
   /\ UNCHANGED <<desc, term, dense>>
